@@ -21,7 +21,7 @@ func runC06(r *R) {
 	r.Assume = []string{"bufio.Scanner yields lines in order"}
 
 	// ---- R1
-	r.Rule("C06-R1", "Balancer.Run: CommitPulls/CommitTrash only after DiscoverKeepServices, discoverMounts, CheckSanityEarly, GetCurrentState, CheckSanityLate (and ClearTrashLists when taken) returned nil; CommitTrash only if CommitPulls (when run) returned nil", 10)
+	r.Rule("C06-R1", "Balancer.Run: CommitPulls/CommitTrash only after DiscoverKeepServices, discoverMounts, CheckSanityEarly, GetCurrentState, CheckSanityLate (and ClearTrashLists when taken) returned nil; CommitTrash only if CommitPulls (when run) returned nil", 2)
 	if fn := r.NeedFn("C06-R1", bal+"Run"); fn != nil {
 		pre := []string{bal + "DiscoverKeepServices", "(*" + kb + ".KeepService).discoverMounts", bal + "CheckSanityEarly", bal + "GetCurrentState", bal + "CheckSanityLate"}
 		mustDominate := map[string]bool{bal + "DiscoverKeepServices": true, bal + "CheckSanityEarly": true, bal + "GetCurrentState": true, bal + "CheckSanityLate": true}
@@ -75,7 +75,7 @@ func runC06(r *R) {
 	}
 
 	// ---- R2
-	r.Rule("C06-R2", "GetCurrentState: errors of IndexMount, addCollection and EachCollection each reach `errs`; nil return only when len(errs)==0 after wg.Wait(); AddReplicas only after IndexMount err==nil", 5)
+	r.Rule("C06-R2", "GetCurrentState: errors of IndexMount, addCollection and EachCollection each reach `errs`; nil return only when len(errs)==0 after wg.Wait(); AddReplicas only after IndexMount err==nil", 1)
 	if fn := r.NeedFn("C06-R2", bal+"GetCurrentState"); fn != nil {
 		sendsErr := func(cl *ssa.Function, from ssa.CallInstruction, errIdx int) bool {
 			// some select/send on errs carries (a value derived from) this call's error
@@ -229,7 +229,7 @@ func runC06(r *R) {
 	}
 
 	// ---- R6, R7
-	r.Rule("C06-R6", "EachCollection: nil only after the closing count check (NOT callCount < checkCount, count err nil); page and callback errors are returned", 3)
+	r.Rule("C06-R6", "EachCollection: nil only after the closing count check (NOT callCount < checkCount, count err nil); page and callback errors are returned", 2)
 	r.Rule("C06-R7", "EachCollection: exact-timestamp mode is left only after an empty page or a timestamp change", 1)
 	if fn := r.NeedFn("C06-R6", kb+".EachCollection"); fn != nil {
 		counts := CallsIn(fn, kb+".countCollections")
@@ -247,7 +247,7 @@ func runC06(r *R) {
 			ok := last != nil && len(counts) >= 2
 			if ok {
 				g1, _ := Guard(fn, last.(ssa.Instruction), ret, ErrNilC(last))
-				g2, _ := Guard(fn, last.(ssa.Instruction), ret, NotC(LtC("callCount < checkCount", AnyV, ResultVP(last.Value(), 0))))
+				g2, _ := Guard(fn, last.(ssa.Instruction), ret, GeC("callCount < checkCount", AnyV, ResultVP(last.Value(), 0)))
 				ok = g1 && g2
 			}
 			r.Check(ok, "C06-R6", fn, "return nil", ret.Pos(), "after the closing count check", "EachCollection can report success without the final count check (a short scan would look complete)")
@@ -291,9 +291,9 @@ func runC06(r *R) {
 					EqC("len(page.Items) == 0", func(v ssa.Value) bool {
 						return isLenOf(v, func(x ssa.Value) bool { return strings.Contains(Canon(x), "CollectionList.Items") })
 					}, ConstIntVP(0)),
-					NotC(LtC("0 < len(page.Items)", ConstIntVP(0), func(v ssa.Value) bool {
+					GeC("0 < len(page.Items)", ConstIntVP(0), func(v ssa.Value) bool {
 						return isLenOf(v, func(x ssa.Value) bool { return strings.Contains(Canon(x), "CollectionList.Items") })
-					})),
+					}),
 					NeqC("last.ModifiedAt != filterTime", func(v ssa.Value) bool { return strings.Contains(Canon(v), "ModifiedAt") }, AnyV))
 				r.Check(ok, "C06-R7", fn, "gettingExactTimestamp = false", at.Pos(), "only after an empty page or a timestamp change", "the scan can leave exact-timestamp mode after a non-empty page of the same timestamp: the remaining collections with that timestamp are never fetched")
 			}
